@@ -807,6 +807,12 @@ func c13KeywordSubject(c *Ctx) {
 
 func c17CtxFresh(c *Ctx) {
 	c.Rule("ctx.fresh: the evaluation context under which a per-evaluation value is entered into the shared table of an AnonSymbolExpr (setValue / clearValue) is the caller's own context (a parameter of the evaluator) or a child context created in this call (NewChild), never a package-level or otherwise shared context: the table is keyed by context, and two goroutines that use one key overwrite each other's current item")
+	setFn := c.P.LookupFunc("hclsyntax", "AnonSymbolExpr.setValue")
+	clearFn := c.P.LookupFunc("hclsyntax", "AnonSymbolExpr.clearValue")
+	if setFn == nil || clearFn == nil {
+		c.CheckerFail("ctx.fresh", "anchor AnonSymbolExpr.setValue / clearValue does not resolve")
+		return
+	}
 	n := 0
 	for _, fn := range c.P.pkgFuncs("hclsyntax") {
 		for _, b := range fn.Blocks {
@@ -816,7 +822,7 @@ func c17CtxFresh(c *Ctx) {
 					continue
 				}
 				k := call.Call.StaticCallee()
-				if k == nil || (k.Name() != "setValue" && k.Name() != "clearValue") || k.Signature.Recv() == nil || !isNamed(derefType(k.Signature.Recv().Type()), hclsyntaxPath, "AnonSymbolExpr") || len(call.Call.Args) < 2 {
+				if k == nil || (k != setFn && k != clearFn) || len(call.Call.Args) < 2 {
 					continue
 				}
 				n++
@@ -848,6 +854,11 @@ func c17CtxFresh(c *Ctx) {
 func schemaExtended(c *Ctx) {
 	c.Rule("schema.extended: every Content / PartialContent call that a method of dynblock.expandBody makes on its underlying body (field original) is handed the schema returned by b.extendSchema — the extended schema is what registers the `dynamic` block type and the types hidden by earlier calls with the underlying body; with the caller's own schema dynamic blocks are never expanded and consumed items are reported as unsupported")
 	dyn := modPath + "/ext/dynblock"
+	extFn := c.P.LookupFunc("ext/dynblock", "expandBody.extendSchema")
+	if extFn == nil {
+		c.CheckerFail("schema.extended", "anchor expandBody.extendSchema does not resolve")
+		return
+	}
 	n := 0
 	for _, fn := range c.P.pkgFuncs("ext/dynblock") {
 		if fn.Signature.Recv() == nil || !isNamed(derefType(fn.Signature.Recv().Type()), dyn, "expandBody") || len(fn.Blocks) == 0 {
@@ -875,7 +886,7 @@ func schemaExtended(c *Ctx) {
 				why := ""
 				for _, o := range originsOf(call.Call.Args[0], nil) {
 					cl, isCall := o.(*ssa.Call)
-					if !isCall || cl.Call.StaticCallee() == nil || cl.Call.StaticCallee().Name() != "extendSchema" {
+					if !isCall || cl.Call.StaticCallee() == nil || cl.Call.StaticCallee() != extFn {
 						okAll = false
 						why = describeOrigin(o)
 					}
@@ -968,7 +979,7 @@ func c20JSONTraversal(c *Ctx) {
 				}
 			}
 			if call, ok := ins.(*ssa.Call); ok {
-				if k := call.Call.StaticCallee(); k != nil && k.Name() == "ParseTraversalAbs" && fnPkg(k) != nil && fnPkg(k).Path() == hclsyntaxPath {
+				if k := call.Call.StaticCallee(); k != nil && k == c.P.LookupFunc("hclsyntax", "ParseTraversalAbs") {
 					parse = call
 				}
 			}
@@ -1002,6 +1013,11 @@ func literalVerbatim(c *Ctx) {
 		return
 	}
 	c.Fn(FuncName(fn))
+	pslt := c.P.LookupFunc("hclsyntax", "ParseStringLiteralToken")
+	if pslt == nil {
+		c.CheckerFail("literal.verbatim", "anchor ParseStringLiteralToken does not resolve")
+		return
+	}
 	n := 0
 	for _, b := range fn.Blocks {
 		for _, ins := range b.Instrs {
@@ -1029,7 +1045,7 @@ func literalVerbatim(c *Ctx) {
 				switch x := o.(type) {
 				case *ssa.Extract:
 					call, _ := x.Tuple.(*ssa.Call)
-					if call == nil || call.Call.StaticCallee() == nil || call.Call.StaticCallee().Name() != "ParseStringLiteralToken" {
+					if call == nil || call.Call.StaticCallee() == nil || call.Call.StaticCallee() != pslt {
 						bad = describeOrigin(o)
 					}
 				case *ssa.UnOp:
@@ -1345,8 +1361,17 @@ func init() { registerExtra("C07", c07DynJustAttrs) }
 func c07DynJustAttrs(c *Ctx) {
 	c.Rule("dyn.justattrs (sibling rule): every hcldec spec whose variablesNeeded reads a child block's body in JustAttributes mode (all its attributes, whatever their names) has a counterpart in the hcldec-driven variable walker of ext/dynblock (walkVariablesWithHCLDec and what it calls): that walker visits bodies by schema only, so it must itself ask such a body for JustAttributes — otherwise VariablesHCLDec, documented as a drop-in replacement for hcldec.Variables, does not report the variables of those attributes")
 	var specs []string
-	for _, fn := range c.P.pkgFuncs("hcldec") {
-		if fn.Name() != "variablesNeeded" || fn.Signature.Recv() == nil || len(fn.Blocks) == 0 {
+	for _, dfn := range c.P.pkgFuncs("hcldec") {
+		if dfn.Name() != "decode" || dfn.Signature.Recv() == nil || dfn.Parent() != nil {
+			continue
+		}
+		rn := namedOf(derefType(dfn.Signature.Recv().Type()))
+		if rn == nil {
+			continue
+		}
+		// the method that reports the spec's variables (resolved through the anchor table, so that a rename is followed)
+		fn := c.P.LookupFunc("hcldec", rn.Obj().Name()+".variablesNeeded")
+		if fn == nil || len(fn.Blocks) == 0 {
 			continue
 		}
 		for _, b := range fn.Blocks {
